@@ -67,9 +67,10 @@ Definition write_at (off : Z) (bs data : list Z) : option (list Z) :=
   then Some (firstn (Z.to_nat off) data ++ bs ++ skipn (Z.to_nat (off + len bs)) data)
   else None.
 
-(* summary of a byte string in the command trace *)
+(* summary of a byte string in the command trace: running sum and sum of the running sums (no modulus) *)
 Definition cksum (bs : list Z) : Z :=
-  fold_left (fun a b => (a * 257 + b + 1) mod 2305843009213693951) bs 0.
+  let r := fold_left (fun (st : Z * Z) b => let a := fst st + b + 1 in (a, snd st + a)) bs (0, 0) in
+  snd r * 4294967296 + fst r.
 
 (* ------------------------------------------------------------------------------------------------ *)
 (** * The machine (environment) *)
@@ -377,7 +378,7 @@ Definition mk_chip (dflt : rslot) (listed : list (Z * rslot)) (free : list (Z * 
          (repeat fill (Z.to_nat bufsize)) rtr_copy.
 
 (* what the comparison looks at: the entries in use (index, fields), the free list, a checksum of the
-   staging buffer *)
+   staging buffer (the unused entries are compared through the checksum of the read-back) *)
 Fixpoint used_slots (i : Z) (l : list rslot) : list (Z * (Z * Z * Z * Z * Z)) :=
   match l with
   | [] => []
@@ -388,7 +389,7 @@ Fixpoint used_slots (i : Z) (l : list rslot) : list (Z * (Z * Z * Z * Z * Z)) :=
   end.
 
 Definition chip_digest (cs : chipstate) :=
-  (used_slots 0 (cs_slots cs), cs_free cs, cksum (cs_bufmem cs), cksum (render_slots (cs_slots cs))).
+  (used_slots 0 (cs_slots cs), cs_free cs, cksum (cs_bufmem cs)).
 
 Definition machine_digest (m : machine) := map (fun kv => (fst kv, chip_digest (snd kv))) m.
 
